@@ -1,10 +1,11 @@
 package main
 
 import (
-	"github.com/biogo/biogo/seq"
 	"fmt"
+	"github.com/biogo/biogo/seq"
 	"math/rand"
 	"strings"
+	"sync"
 
 	"github.com/biogo/biogo/align"
 	"github.com/biogo/biogo/align/matrix"
@@ -306,6 +307,9 @@ func alnCheck(r *obs.Run, which string, c alnCase, al alphabet.Alphabet, M [][]i
 	case kind == "NW" && (f.aStart != 0 || f.bStart != 0 || f.aEnd != n || f.bEnd != m):
 		viol("global-not-spanning", fmt.Sprintf("global alignment covers [%d,%d)/[%d,%d) of %d/%d", f.aStart, f.aEnd, f.bStart, f.bEnd, n, m), facts)
 		return nontrivial
+	case kind == "Fitted" && (f.bStart != 0 || f.bEnd != m): // global in the query
+		viol("global-not-spanning", fmt.Sprintf("fitted alignment consumes [%d,%d) of the %d query letters", f.bStart, f.bEnd, m), facts)
+		return nontrivial
 	}
 	for k, p := range out.pairs {
 		if p.AE == p.AS && p.BE == p.BS && p.Score != 0 {
@@ -356,6 +360,9 @@ func alnCheck(r *obs.Run, which string, c alnCase, al alphabet.Alphabet, M [][]i
 		gapArg := al.Gap()
 		if k := r.Rng.Intn(4); k > 1 {
 			gapArg = alphabet.Letter([]byte{'.', '~'}[k-2])
+		}
+		if gapArg == al.Gap() && strings.IndexByte(c.R+c.Q, byte(al.Gap())) >= 0 {
+			gapArg = '.' // the sequences hold the gap letter themselves: only another filler can be told apart
 		}
 		quality := r.Rng.Intn(2) == 0
 		rsq, qsq := alnMkSeq(rb, al, quality, r.Rng), alnMkSeq(qb, al, quality, r.Rng)
@@ -569,8 +576,144 @@ func alnRandomMatrix(rng *rand.Rand, n int) [][]int {
 	return m
 }
 
+// alnPlainRun is alnRun without the shared scribbling state: it may be called from several goroutines.
+func alnPlainRun(a align.Aligner, ref, query align.AlphabetSlicer) (out alnRunOut) {
+	defer func() {
+		if p := recover(); p != nil {
+			out.panicked = p
+		}
+	}()
+	raw, err := a.Align(ref, query)
+	out.err = err
+	for _, p := range raw {
+		fs := p.Features()
+		sc := 0
+		if s, ok := p.(interface{ Score() int }); ok {
+			sc = s.Score()
+		}
+		out.pairs = append(out.pairs, alnPair{fs[0].Start(), fs[0].End(), fs[1].Start(), fs[1].End(), sc})
+	}
+	return
+}
+
+// alnParallel lets several goroutines align unrelated problems at the same time, each with an aligner value, a matrix
+// and sequences of its own (nothing is shared on the caller's side). Every answer must be the answer the same problem
+// gave when it ran alone: an aligner that keeps working storage between calls shows up here (and, in the builds under
+// the race detector, as a report).
+func alnParallel(r *obs.Run, which string) {
+	rng := r.Rng
+	aa := alnAlphas[rng.Intn(len(alnAlphas))]
+	type task struct {
+		c        alnCase
+		ag       align.Aligner
+		ref, qry align.AlphabetSlicer
+		want     alnRunOut
+		got      []alnRunOut
+	}
+	n := 3 + rng.Intn(6)
+	reps := 2 + rng.Intn(4)
+	oneAlg := ""
+	if rng.Intn(2) == 0 { // all callers inside the same aligner
+		oneAlg = alnAlgs[rng.Intn(len(alnAlgs))]
+	}
+	gen := func(n int) []byte {
+		b := make([]byte, n)
+		for i := range b {
+			b[i] = aa.letters[rng.Intn(len(aa.letters))]
+		}
+		return b
+	}
+	tasks := make([]*task, n)
+	for k := range tasks {
+		alg := oneAlg
+		if alg == "" {
+			alg = alnAlgs[rng.Intn(len(alnAlgs))]
+		}
+		M := alnRandomMatrix(rng, aa.a.Len())
+		open := 0
+		if alnAffine(alg) {
+			open = -rng.Intn(12)
+		}
+		ln := func() int {
+			if rng.Intn(3) == 0 {
+				return 1 + rng.Intn(60)
+			}
+			return 128 + rng.Intn(100) // tables of 16384 cells and more
+		}
+		x := gen(ln())
+		y := gen(ln())
+		if rng.Intn(2) == 0 && len(x) > 4 { // related sequences
+			a := rng.Intn(len(x) / 2)
+			y = append([]byte(nil), x[a:]...)
+			for j := 0; j < len(y)/8+1; j++ {
+				y[rng.Intn(len(y))] = aa.letters[rng.Intn(len(aa.letters))]
+			}
+		}
+		qual := rng.Intn(2) == 0
+		t := &task{c: alnCase{Alg: alg, Alphabet: aa.name, Matrix: M, MatrixID: "random", Open: open, R: string(x), Q: string(y)}}
+		t.ag = alnAligner(alg, M, open)
+		t.ref, t.qry = alnMkSeq(x, aa.a, qual, rng), alnMkSeq(y, aa.a, qual, rng)
+		t.want = alnPlainRun(t.ag, t.ref, t.qry)
+		tasks[k] = t
+	}
+	start := make(chan struct{})
+	var wg sync.WaitGroup
+	for _, t := range tasks {
+		t := t
+		t.got = make([]alnRunOut, reps)
+		wg.Add(1)
+		go func() {
+			defer wg.Done()
+			<-start
+			for k := range t.got {
+				t.got[k] = alnPlainRun(t.ag, t.ref, t.qry)
+			}
+		}()
+	}
+	close(start)
+	wg.Wait()
+	r.Count("concurrent_caller_groups", 1)
+	for ti, t := range tasks {
+		for k, g := range t.got {
+			r.Count("concurrent_alignments_compared", 1)
+			same := g.panicked == nil && t.want.panicked == nil && (g.err == nil) == (t.want.err == nil) && len(g.pairs) == len(t.want.pairs)
+			if same {
+				for j := range g.pairs {
+					if g.pairs[j] != t.want.pairs[j] {
+						same = false
+						break
+					}
+				}
+			}
+			if same {
+				continue
+			}
+			what := fmt.Sprintf("pairs %v", g.pairs)
+			if g.panicked != nil {
+				what = fmt.Sprintf("panic: %v", g.panicked)
+			} else if g.err != nil {
+				what = "error: " + g.err.Error()
+			}
+			cc := t.c
+			cc.Matrix = nil
+			var others []string
+			for _, o := range tasks {
+				others = append(others, o.c.Alg)
+			}
+			r.Violate("concurrent-callers", fmt.Sprintf("%s open=%d r=%q q=%q: with %d other callers aligning unrelated problems at the same time, repeat %d of caller %d gives %s; alone it gave %s",
+				t.c.Alg, t.c.Open, truncStr(t.c.R, 30), truncStr(t.c.Q, 30), n-1, k, ti, truncStr(what, 200), truncStr(fmt.Sprintf("pairs %v err %v panic %v", t.want.pairs, t.want.err, t.want.panicked), 200)),
+				map[string]interface{}{"case": cc, "matrix": t.c.Matrix, "callers": others, "alone": fmt.Sprint(t.want.pairs), "concurrent": what})
+			return
+		}
+	}
+}
+
 func alnRandomCase(r *obs.Run, which string) {
 	rng := r.Rng
+	if rng.Intn(40) == 0 {
+		alnParallel(r, which)
+		return
+	}
 	aa := alnAlphas[rng.Intn(len(alnAlphas))]
 	var M [][]int
 	id := "random"
@@ -621,8 +764,8 @@ func alnRandomCase(r *obs.Run, which string) {
 	if lopsided {
 		x = gen(1 + rng.Intn(3))
 	}
-	gapLetters := which == "C08" && rng.Intn(8) == 0 // the gap letter is a letter of a gapped alphabet like any other
-	if rng.Intn(2) == 0 { // related sequences: mutate a window of x
+	gapLetters := rng.Intn(8) == 0 // the gap letter is a letter of a gapped alphabet like any other
+	if rng.Intn(2) == 0 {          // related sequences: mutate a window of x
 		a := rng.Intn(len(x))
 		b := a + 1 + rng.Intn(len(x)-a)
 		y = append([]byte(nil), x[a:b]...)
